@@ -722,6 +722,10 @@ def _outnums(raw):
     return [int(x) for x in re.findall(br'-?\d+', raw)]
 
 
+class Stuck(Exception):
+    """The resumed session did not come back within the watchdog time."""
+
+
 def run_suspended(text, pi, varnames, k, statefile, mount, budget=600, alter=None):
     """Load `text` in a fresh session, RUN, suspend at boundary k (QUIT signal injected by hook H1), resume from the
     state file in a new Session object and let it finish.  Returns (events, reached) where reached=False if the
@@ -781,11 +785,26 @@ def run_suspended(text, pi, varnames, k, statefile, mount, budget=600, alter=Non
             stream = s2._impl.io_streams._output_streams[0]
             hook2, getvars = mk_hook(s2, stream, 2)
             s2._impl.interpreter.verif_hook = hook2
-            s2.press_keys(u'SYSTEM\r')
+            # (Esc first: after an untrapped Syntax error the interpreter offers the line for editing, and keys typed there would
+            #  be edited into the program line instead of being executed)
+            s2.press_keys(u'\x1bSYSTEM\r')
+            import signal as _signal
+
+            def _stuck(signum, frame):
+                raise Stuck()
+            old_handler = _signal.signal(_signal.SIGALRM, _stuck)
+            _signal.alarm(90)
             try:
                 s2.interact()
             except error.Exit:
                 pass
+            except Stuck:
+                # the resumed session waits for input the harness cannot give: not judged (counted by the caller)
+                st['cut'] = True
+                st['stuck'] = True
+            finally:
+                _signal.alarm(0)
+                _signal.signal(_signal.SIGALRM, old_handler)
             fin = s2
         raw = stream.getvalue()
         delta = raw[st['mark']:]
